@@ -13,6 +13,7 @@ PROPS = {
             {"pkg": "ord", "name": "VH_C20_BidAccept", "quick": {"params": {"U": 2, "FQ": 0}}, "thorough": {"params": {"U": 2, "FQ": 1}}},
             {"pkg": "ord", "name": "VH_C20_ListAccept2D", "quick": {"params": {"U2": 3, "FQ": 0}}, "thorough": {"params": {"U2": 4, "FQ": 1}}},
             {"pkg": "ord", "name": "VH_C20_BidAccept2D", "quick": {"params": {"U2": 3, "FQ": 0}}, "thorough": {"params": {"U2": 3, "FQ": 1}}},
+            {"pkg": "ord", "name": "VH_C20_InscribeTwice"},
             {"pkg": "ord", "name": "VH_C20_Inscribe", "quick": {"params": {"BIG": 2}}, "thorough": {"params": {"BIG": 2}}},
         ],
         "assumptions": [],
